@@ -186,3 +186,710 @@ Proof.
   - simpl in H; inversion H; subst; rewrite Hpc; lia.
   - simpl in H; inversion H; subst; rewrite Hpc; lia.
 Qed.
+
+Lemma wstep_acc r c sh w sh' w' :
+  wstep c sh w = (sh', w') ->
+  (app_cnt r sh' + w_acc r w = app_cnt r sh + w_acc r w')%nat.
+Proof.
+  unfold wstep, app_cnt. intros H.
+  destruct (w_pc w) eqn:Hpc.
+  - destruct (w_todo w); pinv H; unfold w_acc; simpl; rewrite ?Hpc; simpl; lia.
+  - destruct (negb (buf_compatible (sh_buf sh) b)).
+    + pinv H. rewrite w_acc_after, own_begin_flush. unfold w_acc. rewrite Hpc. simpl. lia.
+    + destruct (cf_max_bytes c <? bf_bytes (sh_buf sh) + b_size b)%N.
+      * pinv H. unfold w_acc; simpl. rewrite Hpc, res_rows_snoc, cnt_app. simpl. lia.
+      * destruct (should_flush c (buf_append (sh_buf sh) b)).
+        -- pinv H. rewrite w_acc_after, own_begin_flush. unfold w_acc. rewrite Hpc. simpl.
+           rewrite cnt_app. lia.
+        -- pinv H. unfold w_acc; simpl. rewrite Hpc, res_rows_snoc, !cnt_app. simpl. lia.
+  - cbn [flush_step] in H. pinv H. rewrite w_acc_after. unfold w_acc. rewrite Hpc. simpl. lia.
+  - cbn [flush_step] in H. pinv H. rewrite w_acc_after. unfold w_acc. rewrite Hpc. simpl. lia.
+  - cbn [flush_step] in H. pinv H. rewrite w_acc_after. unfold w_acc. rewrite Hpc. simpl. lia.
+  - cbn [flush_step] in H. pinv H. rewrite w_acc_after. unfold w_acc. rewrite Hpc. simpl. lia.
+  - simpl in H; pinv H; lia.
+  - simpl in H; pinv H; lia.
+  - simpl in H; pinv H; lia.
+  - simpl in H; pinv H; lia.
+Qed.
+
+Lemma tstep_rows r c shut sh p sh' p' :
+  tstep c shut sh p = (sh', p') ->
+  sh_appended sh' = sh_appended sh /\
+  (store_cnt r sh + cnt r (pc_inflight p) = store_cnt r sh' + cnt r (pc_inflight p'))%nat.
+Proof.
+  unfold tstep, store_cnt. intros H.
+  destruct p.
+  - destruct shut; [pinv H; simpl; split; [reflexivity|lia]|].
+    destruct (sh_next_tick sh <=? sh_clock sh); pinv H; simpl; split; try reflexivity; lia.
+  - pinv H. split; [reflexivity|lia].
+  - cbn [flush_step] in H. pinv H. rewrite inflight_t_after. unfold buf_rows, cat_rows; simpl.
+    split; [reflexivity|lia].
+  - cbn [flush_step] in H. pinv H. rewrite inflight_t_after. unfold buf_rows, cat_rows; simpl.
+    rewrite flat_map_app, cnt_app; simpl. rewrite app_nil_r. split; [reflexivity|lia].
+  - cbn [flush_step] in H. pinv H. rewrite inflight_t_after. unfold buf_rows, cat_rows; simpl.
+    split; [reflexivity|lia].
+  - cbn [flush_step] in H. pinv H. rewrite inflight_t_after. unfold buf_rows, cat_rows; simpl.
+    split; [reflexivity|lia].
+  - destruct (negb (buf_is_empty (sh_buf sh)) && (cf_interval c <=? sh_clock sh - sh_last_flush sh));
+      pinv H; simpl; split; try reflexivity; lia.
+  - pinv H. rewrite inflight_t_after, inflight_begin_flush. unfold buf_rows, cat_rows; simpl.
+    split; [reflexivity|lia].
+  - pinv H. rewrite inflight_t_after, inflight_begin_flush. unfold buf_rows, cat_rows; simpl.
+    split; [reflexivity|lia].
+  - pinv H. split; [reflexivity|lia].
+Qed.
+
+Definition w_infl (r : row) (w : wthread) : nat := cnt r (pc_inflight (w_pc w)).
+
+Definition cons1 (r : row) (s : state) : Prop :=
+  app_cnt r (st_sh s)
+  = (store_cnt r (st_sh s) + sumw (w_infl r) (st_ws s) + cnt r (pc_inflight (st_tm s)))%nat.
+Definition cons2 (r : row) (s : state) : Prop :=
+  app_cnt r (st_sh s) = sumw (w_acc r) (st_ws s).
+
+Lemma cons_step r c l s : cons1 r s /\ cons2 r s -> cons1 r (step c l s) /\ cons2 r (step c l s).
+Proof.
+  unfold cons1, cons2. intros [H1 H2]. destruct l as [i| |d|]; simpl.
+  - destruct (nth_error (st_ws s) i) as [w|] eqn:Hn; [|split; assumption].
+    destruct (wstep c (st_sh s) w) as [sh' w'] eqn:Hw. simpl.
+    pose proof (wstep_rows r _ _ _ _ _ Hw) as Ha. pose proof (wstep_acc r _ _ _ _ _ Hw) as Hb.
+    pose proof (sumw_upd (w_infl r) _ _ _ w' Hn) as Hs1.
+    pose proof (sumw_upd (w_acc r) _ _ _ w' Hn) as Hs2.
+    unfold w_infl in *. split; lia.
+  - destruct (tstep c (st_shut s) (st_sh s) (st_tm s)) as [sh' p'] eqn:Ht. simpl.
+    destruct (tstep_rows r _ _ _ _ _ _ Ht) as [Ha Hb]. unfold app_cnt in *. rewrite Ha. split; lia.
+  - split; assumption.
+  - split; assumption.
+Qed.
+
+Lemma sumw_init f todos : (forall t, f (mkW PIdle t []) = 0%nat) ->
+  sumw f (map (fun t => mkW PIdle t []) todos) = 0%nat.
+Proof. intros H. induction todos as [|t r IH]; simpl; [reflexivity|]. rewrite H, IH. reflexivity. Qed.
+
+Lemma cons_init r todos : cons1 r (init todos) /\ cons2 r (init todos).
+Proof.
+  unfold cons1, cons2, init, app_cnt, store_cnt; simpl. split.
+  - rewrite sumw_init; [reflexivity|]. intros; reflexivity.
+  - rewrite sumw_init; [reflexivity|]. intros; reflexivity.
+Qed.
+
+Lemma cons_run r c ls : forall s, cons1 r s /\ cons2 r s -> cons1 r (run c ls s) /\ cons2 r (run c ls s).
+Proof.
+  induction ls as [|l t IH]; intros s H; simpl; [exact H|]. apply IH. apply cons_step. exact H.
+Qed.
+
+(* Conservation, for every interleaving: the rows of all batches appended so
+   far = rows in registered chunks ⊎ rows in the buffer ⊎ rows taken by a
+   flush that has not registered its chunk yet. *)
+Theorem conservation : forall c todos ls,
+  let s := run c ls (init todos) in
+  Permutation (accepted_rows s) (cat_rows (st_sh s) ++ buf_rows (st_sh s) ++ inflight_rows s).
+Proof.
+  intros c todos ls s. apply perm_of_cnt. intros r.
+  destruct (cons_run r c ls _ (cons_init r todos)) as [H1 _]. fold s in H1.
+  unfold cons1, app_cnt, store_cnt in H1. unfold accepted_rows, inflight_rows.
+  rewrite !cnt_app, cnt_flat_map_ws. unfold w_infl in H1. lia.
+Qed.
+
+(* every appended batch belongs to a write that has returned Ok or to a write
+   whose own threshold flush is still running *)
+Definition pending_own_rows (s : state) : list row :=
+  flat_map (fun w => pc_own (w_pc w)) (st_ws s).
+
+Theorem accepted_is_acked_plus_pending : forall c todos ls,
+  let s := run c ls (init todos) in
+  Permutation (accepted_rows s) (acked_rows s ++ pending_own_rows s).
+Proof.
+  intros c todos ls s. apply perm_of_cnt. intros r.
+  destruct (cons_run r c ls _ (cons_init r todos)) as [_ H2]. fold s in H2.
+  unfold cons2, app_cnt in H2. unfold accepted_rows, acked_rows, pending_own_rows.
+  rewrite cnt_app, !cnt_flat_map_ws, <- sumw_plus. exact H2.
+Qed.
+
+Lemma quiescent_spec s : quiescent s = true ->
+  (forall w, In w (st_ws s) -> w_pc w = PIdle) /\ pc_inflight (st_tm s) = []
+  /\ bf_batches (sh_buf (st_sh s)) = [].
+Proof.
+  unfold quiescent. rewrite !andb_true_iff. intros [[Hw Ht] Hb]. split; [|split].
+  - intros w Hin. rewrite forallb_forall in Hw. specialize (Hw w Hin).
+    destruct (w_pc w); try discriminate. reflexivity.
+  - destruct (st_tm s); try discriminate; reflexivity.
+  - unfold buf_is_empty in Hb. destruct (bf_batches (sh_buf (st_sh s))); [reflexivity|discriminate].
+Qed.
+
+(* C06, exactly once: when no write and no flush is in progress and the buffer
+   is empty, the rows in registered chunks are exactly the rows of the writes
+   that returned Ok (as multisets: none missing, none repeated). *)
+Theorem exactly_once : forall c todos ls,
+  let s := run c ls (init todos) in
+  quiescent s = true -> Permutation (acked_rows s) (cat_rows (st_sh s)).
+Proof.
+  intros c todos ls s Hq. apply perm_of_cnt. intros r.
+  destruct (cons_run r c ls _ (cons_init r todos)) as [H1 H2]. fold s in H1, H2.
+  destruct (quiescent_spec _ Hq) as (Hw & Ht & Hb).
+  unfold cons1, cons2, app_cnt, store_cnt, buf_rows in *. rewrite Ht, Hb in H1. simpl in H1.
+  assert (Hz1 : sumw (w_infl r) (st_ws s) = 0%nat).
+  { apply sumw_zero. intros w Hin. unfold w_infl. rewrite (Hw w Hin). reflexivity. }
+  assert (Hz2 : sumw (w_acc r) (st_ws s) = sumw (fun w => cnt r (res_rows (w_res w))) (st_ws s)).
+  { clear - Hw. induction (st_ws s) as [|w t IH]; simpl; [reflexivity|].
+    rewrite IH by (intros x Hx; apply Hw; right; exact Hx).
+    unfold w_acc. rewrite (Hw w (or_introl eq_refl)). simpl. lia. }
+  unfold acked_rows. rewrite cnt_flat_map_ws. rewrite ?cnt_nil in H1. lia.
+Qed.
+
+(* ------------------------------------------------------------------ *)
+(* frame: every step is a flush step or leaves catalog / objects /      *)
+(* announcements alone and involves no chunk-carrying pc                 *)
+(* ------------------------------------------------------------------ *)
+Definition pc_nochunk (p : pc) : Prop :=
+  match p with PReg _ _ | PAnn _ _ => False | _ => True end.
+
+Definition same_store (sh sh' : shared) : Prop :=
+  sh_cat sh' = sh_cat sh /\ sh_ann sh' = sh_ann sh /\ sh_tann sh' = sh_tann sh
+  /\ sh_next sh' = sh_next sh /\ sh_objs sh' = sh_objs sh.
+
+Lemma same_store_refl sh : same_store sh sh.
+Proof. repeat split. Qed.
+
+Lemma nochunk_w_after_begin bs k w : pc_nochunk (w_pc (w_after (begin_flush bs k) w)).
+Proof. destruct bs; destruct k; simpl; exact I. Qed.
+Lemma nochunk_t_after_begin bs k : pc_nochunk (t_after (begin_flush bs k)).
+Proof. destruct bs; destruct k; simpl; exact I. Qed.
+
+Lemma wstep_frame c sh w sh' w' :
+  wstep c sh w = (sh', w') ->
+  (exists r0, flush_step sh (w_pc w) = Some (sh', r0) /\ w' = w_after r0 w)
+  \/ (same_store sh sh' /\ pc_nochunk (w_pc w) /\ pc_nochunk (w_pc w')).
+Proof.
+  unfold wstep. intros H. destruct (w_pc w) eqn:Hpc.
+  - right. destruct (w_todo w); pinv H; rewrite ?Hpc; simpl; auto using same_store_refl.
+  - right. destruct (negb (buf_compatible (sh_buf sh) b)).
+    + pinv H. split; [repeat split|]. split; [exact I|apply nochunk_w_after_begin].
+    + destruct (cf_max_bytes c <? bf_bytes (sh_buf sh) + b_size b)%N.
+      * pinv H. simpl. auto using same_store_refl.
+      * destruct (should_flush c (buf_append (sh_buf sh) b)).
+        -- pinv H. split; [repeat split|]. split; [exact I|apply nochunk_w_after_begin].
+        -- pinv H. split; [repeat split|]. simpl. auto.
+  - left. cbn [flush_step] in H. pinv H. eexists; split; reflexivity.
+  - left. cbn [flush_step] in H. pinv H. eexists; split; reflexivity.
+  - left. cbn [flush_step] in H. pinv H. eexists; split; reflexivity.
+  - left. cbn [flush_step] in H. pinv H. eexists; split; reflexivity.
+  - right. simpl in H. pinv H. rewrite Hpc. simpl. auto using same_store_refl.
+  - right. simpl in H. pinv H. rewrite Hpc. simpl. auto using same_store_refl.
+  - right. simpl in H. pinv H. rewrite Hpc. simpl. auto using same_store_refl.
+  - right. simpl in H. pinv H. rewrite Hpc. simpl. auto using same_store_refl.
+Qed.
+
+Lemma tstep_frame c shut sh p sh' p' :
+  tstep c shut sh p = (sh', p') ->
+  (exists r0, flush_step sh p = Some (sh', r0) /\ p' = t_after r0)
+  \/ (same_store sh sh' /\ pc_nochunk p /\ pc_nochunk p').
+Proof.
+  unfold tstep. intros H. destruct p.
+  - right. destruct shut; [pinv H; simpl; auto using same_store_refl|].
+    destruct (sh_next_tick sh <=? sh_clock sh); pinv H; simpl; auto using same_store_refl.
+    split; [repeat split|auto].
+  - right. pinv H. simpl. auto using same_store_refl.
+  - left. cbn [flush_step] in H. pinv H. eexists; split; reflexivity.
+  - left. cbn [flush_step] in H. pinv H. eexists; split; reflexivity.
+  - left. cbn [flush_step] in H. pinv H. eexists; split; reflexivity.
+  - left. cbn [flush_step] in H. pinv H. eexists; split; reflexivity.
+  - right. destruct (negb (buf_is_empty (sh_buf sh)) && (cf_interval c <=? sh_clock sh - sh_last_flush sh));
+      pinv H; simpl; auto using same_store_refl.
+  - right. pinv H. split; [repeat split|]. split; [exact I|apply nochunk_t_after_begin].
+  - right. pinv H. split; [repeat split|]. split; [exact I|apply nochunk_t_after_begin].
+  - right. pinv H. simpl. auto using same_store_refl.
+Qed.
+
+(* ------------------------------------------------------------------ *)
+(* chunk metadata and stored objects                                    *)
+(* ------------------------------------------------------------------ *)
+Definition meta_ok (c : chunk) : Prop :=
+  k_count c = N.of_nat (length (k_rows c)) /\
+  k_min c = or0 (ts_min (k_rows c)) /\ k_max c = or0 (ts_max (k_rows c)).
+
+Definition chunk_ok (sh : shared) (c : chunk) : Prop :=
+  meta_ok c /\ In (k_id c, k_rows c) (sh_objs sh).
+
+Definition pc_chunks (p : pc) : list chunk :=
+  match p with PReg c _ | PAnn c _ => [c] | _ => [] end.
+Definition fres_chunks (r : fres) : list chunk :=
+  match r with FPc p => pc_chunks p | FRet _ => [] end.
+
+Lemma chunks_w_after r0 w : pc_chunks (w_pc (w_after r0 w)) = fres_chunks r0.
+Proof. destruct r0 as [p|k]; simpl; [reflexivity|destruct k; reflexivity]. Qed.
+Lemma chunks_t_after r0 : pc_chunks (t_after r0) = fres_chunks r0.
+Proof. destruct r0 as [p|k]; simpl; [reflexivity|destruct k; reflexivity]. Qed.
+Lemma nochunk_chunks p : pc_nochunk p -> pc_chunks p = [].
+Proof. destruct p; simpl; intros H; try reflexivity; contradiction. Qed.
+
+Lemma flush_step_objs_mono sh p sh' r0 :
+  flush_step sh p = Some (sh', r0) -> forall x, In x (sh_objs sh) -> In x (sh_objs sh').
+Proof.
+  destruct p; simpl; intros H; inversion H; subst; simpl; auto.
+  intros x Hx. apply in_or_app. left; exact Hx.
+Qed.
+
+Lemma chunk_ok_mono sh sh' c :
+  (forall x, In x (sh_objs sh) -> In x (sh_objs sh')) -> chunk_ok sh c -> chunk_ok sh' c.
+Proof. intros Hm [Ha Hb]. split; [exact Ha|apply Hm; exact Hb]. Qed.
+
+Lemma flush_step_chunks sh p sh' r0 :
+  flush_step sh p = Some (sh', r0) ->
+  Forall (chunk_ok sh) (sh_cat sh) -> Forall (chunk_ok sh) (pc_chunks p) ->
+  Forall (chunk_ok sh') (sh_cat sh') /\ Forall (chunk_ok sh') (fres_chunks r0).
+Proof.
+  intros H Hc Hp. pose proof (flush_step_objs_mono _ _ _ _ H) as Hm.
+  assert (Hc' : Forall (chunk_ok sh') (sh_cat sh)).
+  { eapply Forall_impl; [|exact Hc]. intros a. apply chunk_ok_mono. exact Hm. }
+  assert (Hp' : Forall (chunk_ok sh') (pc_chunks p)).
+  { eapply Forall_impl; [|exact Hp]. intros a. apply chunk_ok_mono. exact Hm. }
+  destruct p; simpl in H; inversion H; subst; simpl in *.
+  - split; [exact Hc'|]. constructor; [|constructor]. split.
+    + unfold meta_ok; simpl. auto.
+    + simpl. apply in_or_app. right. left. reflexivity.
+  - split; [|exact Hp']. apply Forall_app. split; [exact Hc'|exact Hp'].
+  - split; [exact Hc'|constructor].
+  - split; [exact Hc'|constructor].
+Qed.
+
+Definition chunks_inv (s : state) : Prop :=
+  Forall (chunk_ok (st_sh s)) (sh_cat (st_sh s)) /\
+  Forall (fun w => Forall (chunk_ok (st_sh s)) (pc_chunks (w_pc w))) (st_ws s) /\
+  Forall (chunk_ok (st_sh s)) (pc_chunks (st_tm s)).
+
+Lemma Forall_ws_mono (P Q : wthread -> Prop) ws :
+  (forall w, P w -> Q w) -> Forall P ws -> Forall Q ws.
+Proof. intros H HF. eapply Forall_impl; [exact H|exact HF]. Qed.
+
+Lemma chunks_inv_step c l s : chunks_inv s -> chunks_inv (step c l s).
+Proof.
+  unfold chunks_inv. intros (Hc & Hw & Ht). destruct l as [i| |d|]; simpl.
+  - destruct (nth_error (st_ws s) i) as [w|] eqn:Hn; [|auto].
+    destruct (wstep c (st_sh s) w) as [sh' w'] eqn:Hs. simpl.
+    assert (Hwi : Forall (chunk_ok (st_sh s)) (pc_chunks (w_pc w))).
+    { rewrite Forall_forall in Hw. apply Hw. eapply nth_error_In; exact Hn. }
+    destruct (wstep_frame _ _ _ _ _ Hs) as [(r0 & Hf & Hw')|(Hss & Hn1 & Hn2)].
+    + subst w'. destruct (flush_step_chunks _ _ _ _ Hf Hc Hwi) as [Hc' Hr].
+      pose proof (flush_step_objs_mono _ _ _ _ Hf) as Hm.
+      split; [exact Hc'|]. split.
+      * apply Forall_upd.
+        -- eapply Forall_ws_mono; [|exact Hw]. intros x Hx.
+           eapply Forall_impl; [|exact Hx]. intros a. apply chunk_ok_mono. exact Hm.
+        -- rewrite chunks_w_after. exact Hr.
+      * eapply Forall_impl; [|exact Ht]. intros a. apply chunk_ok_mono. exact Hm.
+    + destruct Hss as (E1 & _ & _ & _ & E5).
+      assert (Hm : forall x, In x (sh_objs (st_sh s)) -> In x (sh_objs sh')) by (rewrite E5; auto).
+      split; [|split].
+      * rewrite E1. eapply Forall_impl; [|exact Hc]. intros a. apply chunk_ok_mono. exact Hm.
+      * apply Forall_upd.
+        -- eapply Forall_ws_mono; [|exact Hw]. intros x Hx.
+           eapply Forall_impl; [|exact Hx]. intros a. apply chunk_ok_mono. exact Hm.
+        -- rewrite (nochunk_chunks _ Hn2). constructor.
+      * eapply Forall_impl; [|exact Ht]. intros a. apply chunk_ok_mono. exact Hm.
+  - destruct (tstep c (st_shut s) (st_sh s) (st_tm s)) as [sh' p'] eqn:Hs. simpl.
+    destruct (tstep_frame _ _ _ _ _ _ Hs) as [(r0 & Hf & Hp')|(Hss & Hn1 & Hn2)].
+    + subst p'. destruct (flush_step_chunks _ _ _ _ Hf Hc Ht) as [Hc' Hr].
+      pose proof (flush_step_objs_mono _ _ _ _ Hf) as Hm.
+      split; [exact Hc'|]. split.
+      * eapply Forall_ws_mono; [|exact Hw]. intros x Hx.
+        eapply Forall_impl; [|exact Hx]. intros a. apply chunk_ok_mono. exact Hm.
+      * rewrite chunks_t_after. exact Hr.
+    + destruct Hss as (E1 & _ & _ & _ & E5).
+      assert (Hm : forall x, In x (sh_objs (st_sh s)) -> In x (sh_objs sh')) by (rewrite E5; auto).
+      split; [|split].
+      * rewrite E1. eapply Forall_impl; [|exact Hc]. intros a. apply chunk_ok_mono. exact Hm.
+      * eapply Forall_ws_mono; [|exact Hw]. intros x Hx.
+        eapply Forall_impl; [|exact Hx]. intros a. apply chunk_ok_mono. exact Hm.
+      * rewrite (nochunk_chunks _ Hn2). constructor.
+  - auto.
+  - auto.
+Qed.
+
+Lemma chunks_inv_init todos : chunks_inv (init todos).
+Proof.
+  unfold chunks_inv, init; simpl. split; [constructor|]. split; [|constructor].
+  induction todos as [|t r IH]; simpl; constructor; [constructor|exact IH].
+Qed.
+
+Lemma chunks_inv_run c ls : forall s, chunks_inv s -> chunks_inv (run c ls s).
+Proof. induction ls as [|l t IH]; intros s H; simpl; [exact H|]. apply IH, chunks_inv_step, H. Qed.
+
+(* min / max of a non-empty timestamp column *)
+Lemma ts_min_spec l : l <> [] ->
+  exists m, ts_min l = Some m /\ (exists r, In r l /\ r_ts r = m) /\ forall r, In r l -> m <= r_ts r.
+Proof.
+  induction l as [|a t IH]; intros Hne; [contradiction|]. simpl.
+  destruct t as [|b t'].
+  - simpl. exists (r_ts a). split; [reflexivity|]. split.
+    + exists a; split; [left; reflexivity|reflexivity].
+    + intros r [E|[]]; subst; lia.
+  - destruct IH as (m & Hm & (r0 & Hin & Hr0) & Hle); [discriminate|].
+    rewrite Hm. exists (Z.min (r_ts a) m). split; [reflexivity|]. split.
+    + destruct (Z.min_spec (r_ts a) m) as [[_ E]|[_ E]]; rewrite E.
+      * exists a; split; [left; reflexivity|reflexivity].
+      * exists r0; split; [right; exact Hin|exact Hr0].
+    + intros r [E|Hr]; [subst; lia|]. specialize (Hle r Hr). lia.
+Qed.
+
+Lemma ts_max_spec l : l <> [] ->
+  exists m, ts_max l = Some m /\ (exists r, In r l /\ r_ts r = m) /\ forall r, In r l -> r_ts r <= m.
+Proof.
+  induction l as [|a t IH]; intros Hne; [contradiction|]. simpl.
+  destruct t as [|b t'].
+  - simpl. exists (r_ts a). split; [reflexivity|]. split.
+    + exists a; split; [left; reflexivity|reflexivity].
+    + intros r [E|[]]; subst; lia.
+  - destruct IH as (m & Hm & (r0 & Hin & Hr0) & Hle); [discriminate|].
+    rewrite Hm. exists (Z.max (r_ts a) m). split; [reflexivity|]. split.
+    + destruct (Z.max_spec (r_ts a) m) as [[_ E]|[_ E]]; rewrite E.
+      * exists r0; split; [right; exact Hin|exact Hr0].
+      * exists a; split; [left; reflexivity|reflexivity].
+    + intros r [E|Hr]; [subst; lia|]. specialize (Hle r Hr). lia.
+Qed.
+
+(* what a catalog entry says about the rows of its chunk *)
+Definition meta_exact_for (c : chunk) : Prop :=
+  k_count c = N.of_nat (length (k_rows c)) /\
+  (k_rows c <> [] ->
+     (exists r, In r (k_rows c) /\ r_ts r = k_min c) /\
+     (exists r, In r (k_rows c) /\ r_ts r = k_max c) /\
+     (forall r, In r (k_rows c) -> k_min c <= r_ts r <= k_max c)) /\
+  (k_rows c = [] -> k_min c = 0 /\ k_max c = 0).
+
+Lemma meta_ok_exact c : meta_ok c -> meta_exact_for c.
+Proof.
+  intros (Hc & Hmin & Hmax). split; [exact Hc|]. split.
+  - intros Hne. destruct (ts_min_spec _ Hne) as (m & Em & Hin & Hle).
+    destruct (ts_max_spec _ Hne) as (M & EM & HinM & HleM).
+    rewrite Em in Hmin. rewrite EM in Hmax. simpl in Hmin, Hmax. rewrite Hmin, Hmax.
+    split; [exact Hin|]. split; [exact HinM|]. intros r Hr. split; [apply Hle|apply HleM]; exact Hr.
+  - intros E. rewrite E in Hmin, Hmax. simpl in Hmin, Hmax. auto.
+Qed.
+
+(* C06, exact metadata: every catalog entry, in every reachable state, states
+   the true row count and the true minimum and maximum timestamp of the rows
+   of the object stored under its id. *)
+Theorem meta_exact : forall c todos ls ch,
+  let s := run c ls (init todos) in
+  In ch (sh_cat (st_sh s)) ->
+  meta_exact_for ch /\ In (k_id ch, k_rows ch) (sh_objs (st_sh s)).
+Proof.
+  intros c todos ls ch s Hin.
+  destruct (chunks_inv_run c ls _ (chunks_inv_init todos)) as (Hc & _ & _). fold s in Hc.
+  rewrite Forall_forall in Hc. destruct (Hc ch Hin) as [Hm Ho].
+  split; [apply meta_ok_exact; exact Hm|exact Ho].
+Qed.
+
+(* ------------------------------------------------------------------ *)
+(* announcements: counted through an arbitrary key of chunks            *)
+(* ------------------------------------------------------------------ *)
+Definition ind (b : bool) : nat := if b then 1%nat else 0%nat.
+
+Section Keyed.
+  Context {K : Type}.
+  Variable key : chunk -> K.
+  Variable K_dec : forall a b : K, {a = b} + {a <> b}.
+
+  Definition cntK (x : K) (l : list chunk) : nat := count_occ K_dec (map key l) x.
+  Definition hit (x : K) (c : chunk) : nat := if K_dec (key c) x then 1%nat else 0%nat.
+
+  Lemma cntK_snoc x l c : cntK x (l ++ [c]) = (cntK x l + hit x c)%nat.
+  Proof.
+    unfold cntK, hit. rewrite map_app, count_occ_app. simpl.
+    destruct (K_dec (key c) x); reflexivity.
+  Qed.
+
+  Definition pc_annK (x : K) (p : pc) : nat := match p with PAnn c _ => hit x c | _ => 0%nat end.
+  Definition fres_annK (x : K) (r : fres) : nat := match r with FPc p => pc_annK x p | FRet _ => 0%nat end.
+
+  Lemma annK_w_after x r0 w : pc_annK x (w_pc (w_after r0 w)) = fres_annK x r0.
+  Proof. destruct r0 as [p|k]; simpl; [reflexivity|destruct k; reflexivity]. Qed.
+  Lemma annK_t_after x r0 : pc_annK x (t_after r0) = fres_annK x r0.
+  Proof. destruct r0 as [p|k]; simpl; [reflexivity|destruct k; reflexivity]. Qed.
+  Lemma annK_nochunk x p : pc_nochunk p -> pc_annK x p = 0%nat.
+  Proof. destruct p; simpl; intros H; try reflexivity; contradiction. Qed.
+
+  Lemma flush_step_annK x sh p sh' r0 :
+    flush_step sh p = Some (sh', r0) ->
+    (cntK x (sh_cat sh') + cntK x (sh_ann sh) + pc_annK x p
+     = cntK x (sh_cat sh) + cntK x (sh_ann sh') + fres_annK x r0)%nat.
+  Proof.
+    destruct p; simpl; intros H; inversion H; subst; simpl; rewrite ?cntK_snoc; lia.
+  Qed.
+
+  (* registered = announced + registered-but-not-yet-announced *)
+  Definition annA (x : K) (s : state) : Prop :=
+    cntK x (sh_cat (st_sh s))
+    = (cntK x (sh_ann (st_sh s)) + sumw (fun w => pc_annK x (w_pc w)) (st_ws s) + pc_annK x (st_tm s))%nat.
+
+  Lemma annA_step x c l s : annA x s -> annA x (step c l s).
+  Proof.
+    unfold annA. intros HA. destruct l as [i| |d|]; simpl; auto.
+    - destruct (nth_error (st_ws s) i) as [w|] eqn:Hn; [|exact HA].
+      destruct (wstep c (st_sh s) w) as [sh' w'] eqn:Hs. simpl.
+      pose proof (sumw_upd (fun w => pc_annK x (w_pc w)) _ _ _ w' Hn) as Hu. simpl in Hu.
+      destruct (wstep_frame _ _ _ _ _ Hs) as [(r0 & Hf & Hw')|(Hss & Hn1 & Hn2)].
+      + subst w'. rewrite annK_w_after in Hu. pose proof (flush_step_annK x _ _ _ _ Hf). lia.
+      + destruct Hss as (E1 & E2 & _). rewrite E1, E2.
+        rewrite (annK_nochunk x _ Hn1), (annK_nochunk x _ Hn2) in Hu. lia.
+    - destruct (tstep c (st_shut s) (st_sh s) (st_tm s)) as [sh' p'] eqn:Hs. simpl.
+      destruct (tstep_frame _ _ _ _ _ _ Hs) as [(r0 & Hf & Hp')|(Hss & Hn1 & Hn2)].
+      + subst p'. rewrite annK_t_after. pose proof (flush_step_annK x _ _ _ _ Hf). lia.
+      + destruct Hss as (E1 & E2 & _). rewrite E1, E2.
+        rewrite (annK_nochunk x _ Hn1) in HA. rewrite (annK_nochunk x _ Hn2). lia.
+  Qed.
+
+  Lemma annA_init x todos : annA x (init todos).
+  Proof. unfold annA, init; simpl. rewrite sumw_init; [reflexivity|]. intros; reflexivity. Qed.
+
+  Lemma annA_run x c ls : forall s, annA x s -> annA x (run c ls s).
+  Proof. induction ls as [|l t IH]; intros s H; simpl; [exact H|]. apply IH, annA_step, H. Qed.
+End Keyed.
+
+Definition chunk_eq_dec : forall a b : chunk, {a = b} + {a <> b}.
+Proof.
+  decide equality; try apply Z.eq_dec; try apply N.eq_dec. apply list_eq_dec. apply row_eq_dec.
+Defined.
+
+(* uniqueness of chunk ids: every id below the fresh counter is in exactly one
+   place — waiting to be registered, or in the catalog *)
+Definition pc_regN (n : N) (p : pc) : nat :=
+  match p with PReg c _ => hit k_id N.eq_dec n c | _ => 0%nat end.
+Definition fres_regN (n : N) (r : fres) : nat :=
+  match r with FPc p => pc_regN n p | FRet _ => 0%nat end.
+
+Lemma regN_w_after n r0 w : pc_regN n (w_pc (w_after r0 w)) = fres_regN n r0.
+Proof. destruct r0 as [p|k]; simpl; [reflexivity|destruct k; reflexivity]. Qed.
+Lemma regN_t_after n r0 : pc_regN n (t_after r0) = fres_regN n r0.
+Proof. destruct r0 as [p|k]; simpl; [reflexivity|destruct k; reflexivity]. Qed.
+Lemma regN_nochunk n p : pc_nochunk p -> pc_regN n p = 0%nat.
+Proof. destruct p; simpl; intros H; try reflexivity; contradiction. Qed.
+
+Lemma ind_lt_succ n m : ind (n <? m + 1)%N = (ind (n <? m)%N + (if N.eq_dec m n then 1 else 0))%nat.
+Proof.
+  unfold ind. destruct (N.ltb_spec n (m + 1)); destruct (N.ltb_spec n m); destruct (N.eq_dec m n); lia.
+Qed.
+
+Lemma flush_step_regN n sh p sh' r0 :
+  flush_step sh p = Some (sh', r0) ->
+  (cntK k_id N.eq_dec n (sh_cat sh') + fres_regN n r0 + ind (n <? sh_next sh)%N
+   = cntK k_id N.eq_dec n (sh_cat sh) + pc_regN n p + ind (n <? sh_next sh')%N)%nat.
+Proof.
+  destruct p; simpl; intros H; inversion H; subst; simpl; rewrite ?cntK_snoc; try lia.
+  rewrite ind_lt_succ. unfold hit; simpl. lia.
+Qed.
+
+Definition regB (n : N) (s : state) : Prop :=
+  (cntK k_id N.eq_dec n (sh_cat (st_sh s)) + sumw (fun w => pc_regN n (w_pc w)) (st_ws s)
+   + pc_regN n (st_tm s) = ind (n <? sh_next (st_sh s))%N)%nat.
+
+Lemma regB_step n c l s : regB n s -> regB n (step c l s).
+Proof.
+  unfold regB. intros HA. destruct l as [i| |d|]; simpl; auto.
+  - destruct (nth_error (st_ws s) i) as [w|] eqn:Hn; [|exact HA].
+    destruct (wstep c (st_sh s) w) as [sh' w'] eqn:Hs. simpl.
+    pose proof (sumw_upd (fun w => pc_regN n (w_pc w)) _ _ _ w' Hn) as Hu. simpl in Hu.
+    destruct (wstep_frame _ _ _ _ _ Hs) as [(r0 & Hf & Hw')|(Hss & Hn1 & Hn2)].
+    + subst w'. rewrite regN_w_after in Hu. pose proof (flush_step_regN n _ _ _ _ Hf). lia.
+    + destruct Hss as (E1 & _ & _ & E4 & _). rewrite E1, E4.
+      rewrite (regN_nochunk n _ Hn1), (regN_nochunk n _ Hn2) in Hu. lia.
+  - destruct (tstep c (st_shut s) (st_sh s) (st_tm s)) as [sh' p'] eqn:Hs. simpl.
+    destruct (tstep_frame _ _ _ _ _ _ Hs) as [(r0 & Hf & Hp')|(Hss & Hn1 & Hn2)].
+    + subst p'. rewrite regN_t_after. pose proof (flush_step_regN n _ _ _ _ Hf). lia.
+    + destruct Hss as (E1 & _ & _ & E4 & _). rewrite E1, E4.
+      rewrite (regN_nochunk n _ Hn1) in HA. rewrite (regN_nochunk n _ Hn2). lia.
+Qed.
+
+Lemma regB_init n todos : regB n (init todos).
+Proof.
+  unfold regB, init; simpl. rewrite sumw_init; [|intros; reflexivity].
+  unfold ind. destruct (N.ltb_spec n 0); [lia|reflexivity].
+Qed.
+
+Lemma regB_run n c ls : forall s, regB n s -> regB n (run c ls s).
+Proof. induction ls as [|l t IH]; intros s H; simpl; [exact H|]. apply IH, regB_step, H. Qed.
+
+(* both channels always carry the same sequence *)
+Definition annC (s : state) : Prop := sh_tann (st_sh s) = sh_ann (st_sh s).
+
+Lemma flush_step_annC sh p sh' r0 :
+  flush_step sh p = Some (sh', r0) -> sh_tann sh = sh_ann sh -> sh_tann sh' = sh_ann sh'.
+Proof. destruct p; simpl; intros H E; inversion H; subst; simpl; auto. rewrite E. reflexivity. Qed.
+
+Lemma annC_step c l s : annC s -> annC (step c l s).
+Proof.
+  unfold annC. intros HA. destruct l as [i| |d|]; simpl; auto.
+  - destruct (nth_error (st_ws s) i) as [w|] eqn:Hn; [|exact HA].
+    destruct (wstep c (st_sh s) w) as [sh' w'] eqn:Hs. simpl.
+    destruct (wstep_frame _ _ _ _ _ Hs) as [(r0 & Hf & Hw')|(Hss & _)].
+    + eapply flush_step_annC; eauto.
+    + destruct Hss as (_ & E2 & E3 & _). rewrite E2, E3. exact HA.
+  - destruct (tstep c (st_shut s) (st_sh s) (st_tm s)) as [sh' p'] eqn:Hs. simpl.
+    destruct (tstep_frame _ _ _ _ _ _ Hs) as [(r0 & Hf & Hp')|(Hss & _)].
+    + eapply flush_step_annC; eauto.
+    + destruct Hss as (_ & E2 & E3 & _). rewrite E2, E3. exact HA.
+Qed.
+
+Lemma annC_run c ls : forall s, annC s -> annC (run c ls s).
+Proof. induction ls as [|l t IH]; intros s H; simpl; [exact H|]. apply IH, annC_step, H. Qed.
+
+Lemma quiescent_nochunk s : quiescent s = true ->
+  (forall w, In w (st_ws s) -> pc_nochunk (w_pc w)) /\ pc_nochunk (st_tm s).
+Proof.
+  intros Hq. destruct (quiescent_spec _ Hq) as (Hw & _ & _). split.
+  - intros w Hin. rewrite (Hw w Hin). exact I.
+  - unfold quiescent in Hq. rewrite !andb_true_iff in Hq. destruct Hq as [[_ Ht] _].
+    destruct (st_tm s); try discriminate; exact I.
+Qed.
+
+(* C06, announcements: the legacy and the topic channel carry the same
+   sequence; chunk ids in the catalog are pairwise distinct; every announced
+   chunk is a registered chunk and is announced at most once; and once no
+   flush is in progress every registered chunk has been announced exactly
+   once. *)
+Theorem one_announcement_per_chunk : forall c todos ls,
+  let s := run c ls (init todos) in
+  sh_tann (st_sh s) = sh_ann (st_sh s) /\
+  NoDup (map k_id (sh_cat (st_sh s))) /\
+  NoDup (map k_id (sh_ann (st_sh s))) /\
+  (forall ch, In ch (sh_ann (st_sh s)) -> In ch (sh_cat (st_sh s))) /\
+  (quiescent s = true -> Permutation (sh_ann (st_sh s)) (sh_cat (st_sh s))).
+Proof.
+  intros c todos ls s.
+  assert (HC : annC s) by (apply annC_run; reflexivity).
+  assert (HB : forall n, regB n s) by (intros n; apply regB_run, regB_init).
+  assert (HAn : forall n, annA k_id N.eq_dec n s) by (intros n; apply annA_run, annA_init).
+  assert (HAc : forall ch, annA (fun x => x) chunk_eq_dec ch s) by (intros ch; apply annA_run, annA_init).
+  split; [exact HC|].
+  assert (Hle : forall n, (cntK k_id N.eq_dec n (sh_cat (st_sh s)) <= 1)%nat).
+  { intros n. specialize (HB n). unfold regB, ind in HB. destruct (n <? sh_next (st_sh s))%N; lia. }
+  split; [|split; [|split]].
+  - apply (NoDup_count_occ N.eq_dec). intros n. apply Hle.
+  - apply (NoDup_count_occ N.eq_dec). intros n. specialize (HAn n). specialize (Hle n).
+    unfold annA in HAn. unfold cntK in *. lia.
+  - intros ch Hin. specialize (HAc ch). unfold annA, cntK in HAc. rewrite !map_id in HAc.
+    apply (count_occ_In chunk_eq_dec). apply (count_occ_In chunk_eq_dec) in Hin. lia.
+  - intros Hq. destruct (quiescent_nochunk _ Hq) as [Hw Ht].
+    apply (Permutation_count_occ chunk_eq_dec). intros ch. specialize (HAc ch).
+    unfold annA, cntK in HAc. rewrite !map_id in HAc.
+    rewrite sumw_zero in HAc.
+    + rewrite (annK_nochunk _ _ _ _ Ht) in HAc. lia.
+    + intros w Hin. apply annK_nochunk. apply Hw. exact Hin.
+Qed.
+
+(* ------------------------------------------------------------------ *)
+(* the buffer's counters are exact                                      *)
+(* ------------------------------------------------------------------ *)
+Definition bytes_of (bs : list batch) : N := fold_right (fun b a => (b_size b + a)%N) 0%N bs.
+
+Definition buf_ok (bf : buffer) : Prop :=
+  bf_rows bf = N.of_nat (length (rows_of (bf_batches bf))) /\ bf_bytes bf = bytes_of (bf_batches bf).
+
+Lemma bytes_of_snoc bs b : bytes_of (bs ++ [b]) = (bytes_of bs + b_size b)%N.
+Proof. induction bs as [|x r IH]; simpl; [lia|]. rewrite IH. lia. Qed.
+
+Lemma buf_ok_empty : buf_ok buf_empty.
+Proof. split; reflexivity. Qed.
+
+Lemma buf_ok_append bf b : buf_ok bf -> buf_ok (buf_append bf b).
+Proof.
+  intros [Hr Hb]. split; simpl.
+  - rewrite rows_of_snoc, app_length, Hr. lia.
+  - rewrite bytes_of_snoc, Hb. reflexivity.
+Qed.
+
+Lemma wstep_buf_ok c sh w sh' w' : wstep c sh w = (sh', w') -> buf_ok (sh_buf sh) -> buf_ok (sh_buf sh').
+Proof.
+  unfold wstep. intros H Hok. destruct (w_pc w) eqn:Hpc;
+    try (cbn [flush_step] in H; pinv H; simpl; exact Hok).
+  - destruct (w_todo w); pinv H; exact Hok.
+  - destruct (negb (buf_compatible (sh_buf sh) b)); [pinv H; apply buf_ok_empty|].
+    destruct (cf_max_bytes c <? bf_bytes (sh_buf sh) + b_size b)%N; [pinv H; exact Hok|].
+    destruct (should_flush c (buf_append (sh_buf sh) b)); pinv H; simpl;
+      [apply buf_ok_empty|apply buf_ok_append; exact Hok].
+Qed.
+
+Lemma tstep_buf_ok c shut sh p sh' p' : tstep c shut sh p = (sh', p') -> buf_ok (sh_buf sh) -> buf_ok (sh_buf sh').
+Proof.
+  unfold tstep. intros H Hok. destruct p;
+    try (cbn [flush_step] in H; pinv H; simpl; first [exact Hok|apply buf_ok_empty]).
+  - destruct shut; [pinv H; exact Hok|].
+    destruct (sh_next_tick sh <=? sh_clock sh); pinv H; exact Hok.
+  - destruct (negb (buf_is_empty (sh_buf sh)) && (cf_interval c <=? sh_clock sh - sh_last_flush sh));
+      pinv H; exact Hok.
+Qed.
+
+Theorem buffer_counters_exact : forall c todos ls,
+  buf_ok (sh_buf (st_sh (run c ls (init todos)))).
+Proof.
+  intros c todos ls.
+  assert (G : forall s, buf_ok (sh_buf (st_sh s)) -> buf_ok (sh_buf (st_sh (run c ls s)))).
+  { induction ls as [|l t IH]; intros s H; simpl; [exact H|]. apply IH.
+    destruct l as [i| |d|]; simpl; auto.
+    - destruct (nth_error (st_ws s) i) as [w|]; [|exact H].
+      destruct (wstep c (st_sh s) w) as [sh' w'] eqn:Hs. simpl. eapply wstep_buf_ok; eauto.
+    - destruct (tstep c (st_shut s) (st_sh s) (st_tm s)) as [sh' p'] eqn:Hs. simpl.
+      eapply tstep_buf_ok; eauto. }
+  apply G. apply buf_ok_empty.
+Qed.
+
+(* ------------------------------------------------------------------ *)
+(* runs at yield-point granularity are runs                              *)
+(* ------------------------------------------------------------------ *)
+Lemma run_app c l1 l2 s : run c (l1 ++ l2) s = run c l2 (run c l1 s).
+Proof. unfold run. apply fold_left_app. Qed.
+
+Lemma settle_w_is_run c fuel : forall i s, exists ls, settle_w c fuel i s = run c ls s.
+Proof.
+  induction fuel as [|f IH]; intros i s; cbn [settle_w]; [exists []; reflexivity|].
+  destruct (nth_error (st_ws s) i) as [w|]; [|exists []; reflexivity].
+  destruct (w_parked w); [exists []; reflexivity|].
+  destruct (IH i (step c (LW i) s)) as [ls Hls]. exists (LW i :: ls). exact Hls.
+Qed.
+
+Lemma settle_t_is_run c fuel : forall s, exists ls, settle_t c fuel s = run c ls s.
+Proof.
+  induction fuel as [|f IH]; intros s; cbn [settle_t]; [exists []; reflexivity|].
+  destruct (t_parked s); [exists []; reflexivity|].
+  destruct (IH (step c LT s)) as [ls Hls]. exists (LT :: ls). exact Hls.
+Qed.
+
+Lemma macro_is_run c l s : exists ls, macro c l s = run c ls s.
+Proof.
+  destruct l as [i| |d|]; cbn [macro].
+  - destruct (settle_w_is_run c 64 i (step c (LW i) s)) as [ls H]. exists (LW i :: ls). exact H.
+  - destruct (settle_t_is_run c 64 (step c LT s)) as [ls H]. exists (LT :: ls). exact H.
+  - destruct (settle_t_is_run c 64 (step c (LAdv d) s)) as [ls H]. exists (LAdv d :: ls). exact H.
+  - destruct (settle_t_is_run c 64 (step c LShut s)) as [ls H]. exists (LShut :: ls). exact H.
+Qed.
+
+(* every run at the granularity the harness drives the implementation at is
+   one of the step-level runs the theorems quantify over *)
+Theorem macro_run_is_run : forall c ms s, exists ls, macro_run c ms s = run c ls s.
+Proof.
+  intros c ms. induction ms as [|m t IH]; intros s; [exists []; reflexivity|].
+  change (macro_run c (m :: t) s) with (macro_run c t (macro c m s)).
+  destruct (macro_is_run c m s) as [l1 H1]. destruct (IH (macro c m s)) as [l2 H2].
+  exists (l1 ++ l2). rewrite run_app, <- H1. exact H2.
+Qed.
+
+(* ------------------------------------------------------------------ *)
+(* non-vacuity: a concrete two-writer run with a schema change, a        *)
+(* threshold flush overlapping another writer's append, a timer flush    *)
+(* and a shutdown flush reaches quiescence with three chunks             *)
+(* ------------------------------------------------------------------ *)
+Definition ex_cfg : cfg := mkCfg 3%N 1000%N 10000%N 10.
+Definition ex_b (sch : N) (ids : list (N * Z)) : batch :=
+  mkBatch sch (map (fun p => mkRow (fst p) (snd p)) ids) 10%N.
+Definition ex_todos : list (list batch) :=
+  [ [ex_b 1%N [(1%N, 5); (2%N, -3)]; ex_b 2%N [(3%N, 7)]];
+    [ex_b 1%N [(4%N, 9); (5%N, 1)]; ex_b 2%N [(6%N, 2)]] ].
+Definition ex_sched : list label :=
+  [LT; LW 0; LW 0; LW 1; LW 0; LW 1; LW 0; LAdv 10; LT; LShut].
+Definition ex_final : state := macro_run ex_cfg ex_sched (init ex_todos).
+
+Example ex_reaches_quiescence :
+  quiescent ex_final = true /\ length (sh_cat (st_sh ex_final)) = 3%nat
+  /\ length (acked_rows ex_final) = 6%nat.
+Proof. vm_compute. repeat split. Qed.
